@@ -122,7 +122,7 @@ impl Property for C06 {
          oracle = Instance::evaluate of each state alone (tied to the reference model by C05) + key-set and re-grouping invariance; non-trivial = >=2 ids and (shared entry or duplicate state across entries or equal values from different states); distinct = sha256(instance, pairs, grouping)"
     }
     fn required_labels(&self) -> Vec<String> {
-        ["multi-id-entry", "dup-state-separate-entries", "value-collision", "omits-irrelevant", "omits-different-subsets", "add_sample", "n>=4", "dependency", "removed-constraint", "fixed-variable", "state-has-stale-value-of-fixed-variable", "unset-oneof", "big-linear-function", "state-has-foreign-id", "fixed-value-outside-its-bound"].iter().map(|s| s.to_string()).collect()
+        ["multi-id-entry", "on-threshold-table-entry-compared-with-single-evaluation", "dup-state-separate-entries", "value-collision", "omits-irrelevant", "omits-different-subsets", "add_sample", "n>=4", "dependency", "removed-constraint", "fixed-variable", "state-has-stale-value-of-fixed-variable", "unset-oneof", "big-linear-function", "state-has-foreign-id", "fixed-value-outside-its-bound"].iter().map(|s| s.to_string()).collect()
     }
     fn cases(&self, tier: Tier) -> usize {
         match tier {
@@ -328,6 +328,26 @@ impl Property for C06 {
                 let Some(ec) = single.evaluated_constraints.iter().find(|e| e.id == c.id) else { continue };
                 // a value exactly on the threshold: C06's statement does not fix the strictness of the comparison (C05's does)
                 if ec.evaluated_value.abs() == 1e-6 {
+                    // ... but the statement does demand agreement with the evaluation of that sample alone. When every
+                    // OTHER constraint entering the same flag clearly holds there, the single evaluation's flag IS its
+                    // verdict on this constraint, and the table must say the same (whichever comparison both use).
+                    let removed = c.removed_reason.is_some();
+                    let clearly_holds = |e: &v1::EvaluatedConstraint| e.evaluated_value.abs() != 1e-6 && match e.equality {
+                        1 => e.evaluated_value.abs() < 1e-6,
+                        2 => e.evaluated_value < 1e-6,
+                        _ => false,
+                    };
+                    let others_hold = single.evaluated_constraints.iter().filter(|e| e.id != c.id).filter(|e| removed || e.removed_reason.is_none()).all(clearly_holds);
+                    let verdict = if removed { Some(single.feasible) } else { single.feasible_relaxed };
+                    if let (true, Some(v)) = (others_hold, verdict) {
+                        ctx.label("on-threshold-table-entry-compared-with-single-evaluation");
+                        if c.feasible.get(id) != Some(&v) {
+                            return fail(
+                                "C06/constraint-feasible-table/on-threshold-disagrees-with-single",
+                                ctxmsg(format!("constraint {} (equality {}) has value {:e} at sample {id}, exactly on the tolerance, and every other constraint holds there: the evaluation of that sample alone decides {v} but the sample set's table says {:?}", c.id, ec.equality, ec.evaluated_value, c.feasible.get(id))),
+                            );
+                        }
+                    }
                     continue;
                 }
                 let holds = match ec.equality {
